@@ -2033,6 +2033,8 @@ func (lg *ledger) boundFacts(b *ssa.BasicBlock) (out []diffC) {
 						out = append(out, diffC{lg.key(x), lk, -1}, diffC{"0", lg.key(x), 1}) // -1 <= r <= len-1
 					case "Index", "LastIndex":
 						out = append(out, diffC{lg.key(x), lk, 0}, diffC{"0", lg.key(x), 1}) // -1 <= r <= len
+					case "Count":
+						out = append(out, diffC{"0", lg.key(x), 0}, diffC{lg.key(x), lk, 1}) // 0 <= r <= len+1
 					}
 				}
 				if pkg, name := staticCalleeName(x); pkg == "strings" && name == "Split" {
